@@ -10,6 +10,9 @@ R4 union rules        shadowing / merge / whiteout / opaque arms of new_from_rea
 R6 copy-up fidelity   shared with C11.R3: what a copied-up file/directory/symlink looks like to the client afterwards (mode, content, target)
 R5 write intent       an open (or handle-less access) that may write or truncate copies up before touching a layer: the
                       read-only test's mask covers O_WRONLY|O_RDWR|O_TRUNC (and O_APPEND|O_CREAT)
+R2 (cont.)           import: each root backing inode is (layer, upper?, layer.root_inode(), not a whiteout, layer.is_opaque(root)), both kinds are recorded, the root is registered and loaded
+R4 (cont.)           layer scan skips exactly "." and ".."; every merged name becomes a child; is_whiteout is a conjunction
+R6/R7                live tree and precondition polarity, shared with C11.R6/R7
 """
 import json
 import re
@@ -716,3 +719,4 @@ META = {
     "note": "Not decided: equality of the visible tree with the overlayfs union over all layer contents and operation histories (run-time "
             "quantities); behaviour of the layers themselves.",
 }
+META["text"] += " " + "Also: import's root backing inodes, the layer scan's dot filter, every merged name kept, is_whiteout as a conjunction, live-tree registration and precondition polarity (C11.R6/R7)."
